@@ -195,7 +195,7 @@ func runC13Fault(c *Ctx, r *Rng) {
 		time.Sleep(time.Duration(r.Range(200, 2000)) * time.Microsecond)
 	}
 	rep.Close()
-	time.Sleep(3 * time.Millisecond)
+	sink.settle(150*time.Millisecond, 5*time.Second)
 	pkts := sink.close()
 	line := fmt.Sprintf("protocol=%s destinations=%v (second/first one dead) batches=%d", p, len(hosts), nBatches)
 	decoded := 0
